@@ -99,3 +99,13 @@ def mk_seqparams_phos(nsites=None, **kw):
 for sp_, be_, rn_ in [('set_phosphosites', 'setPhosPhoSites', {'listOfPsites': 'phosphosites'}), ('clear_phosphosites', 'clear_phosphosites', None),
                       ('get_phosphosites', 'get_phosphosites', None), ('get_phosphosequence', 'get_phosphosequence', None)]:
     forward(sp_, be_, rename=rn_, selfb=mk_seqparams_phos())
+
+forward('get_kappa_after_phosphorylation', 'kappa_at_maxPhos', selfb=mk_seqparams_phos())
+CONTRACT[SP + 'get_kappa_after_phosphorylation']['ensures'] = [e.replace('local("newseq", "")', 'local("ghost_newseq", "")')
+                                                             for e in CONTRACT[SP + 'get_kappa_after_phosphorylation']['ensures']]
+CONTRACT[SP + 'get_kappa_after_phosphorylation'].pop('ghost_locals', None)
+forward('get_all_phosphorylatable_sites', 'get_STY_residues', selfb=mk_seqparams_phos())
+CONTRACT[SP + 'get_full_phosphostatus_kappa_distribution'] = dict(
+    self=mk_seqparams_phos(nsites=1, dmax='unset'), cases=[dict(self=mk_seqparams_phos(nsites=k, dmax='unset')) for k in (0, 1, 2, 3)],
+    raises=[], modifies=[],
+    ensures=['dist_ok(result, self.SeqObj.seq, self.SeqObj.len, self.SeqObj.phosphosites)'])
